@@ -22,7 +22,7 @@ EXPLANATION = (
     "values never reach write(); attribute values recurse only through writeWithAttributeEscaping(write) + attributeEscapingDoneOutside, children reset to escapeForContent, "
     "no other step overrides the escaper, keepGoing forwards its context; buffered writes are delivered in order.  FINITE-EXHAUSTIVE: content and attribute escapers on all "
     "256 bytes and their neighbourhoods (single-byte replacement chain checked).  BOUNDED second layer (bounded evidence only for: comment/CDATA escapers - string grids against "
-    "tokenizer oracles, F28 known; parse-back of whole trees): "
+    "tokenizer oracles, F28 fixed, F28b known; parse-back of whole trees): "
     "Decides: (a) provenance at every write(...) of _flattenElement: the argument is a markup literal from the frozen set, dataEscaper(root), "
     "escapedCDATA(root.data) / escapedComment(root.data) bracketed in order by their delimiters, the tag/attribute name (valid by the statement) or the "
     "numeric character reference; attribute values are flattened only through write=writeWithAttributeEscaping(write) with attributeEscapingDoneOutside, "
@@ -30,8 +30,8 @@ EXPLANATION = (
     "enclosing defaults and the tree starts with escapeForContent; (b) the four escapers are interpreted (whitelisted evaluator, no execution) on every "
     "string up to length 5 (4 for attributes) over a hostile alphabet and compared with oracles: text/attribute output contains no raw < > (\") and "
     "un-escapes to the input with '&' rewritten first; CDATA output re-parses as CDATA sections whose concatenation is the input; comment output must "
-    "be consumed as exactly one comment by an HTML5 comment tokenizer and be well-formed XML comment data - it is not (known finding F28: data "
-    "starting with '>' or '->', containing '--!>' end the comment early; '--' is not well-formed XML). Not decided: structural equality after re-parsing "
+    "be consumed as exactly one comment by an HTML5 comment tokenizer (F28, fixed: data starting with '>' or '->' or containing '--!>' ended the comment "
+    "early; the revert is a mutant) and be well-formed XML comment data - it is not (known finding F28b: '--' is not well-formed XML). Not decided: structural equality after re-parsing "
     "whole documents, renderers' own output."
 )
 RULE_KINDS = {
@@ -783,7 +783,11 @@ MUTANTS = [
     Mutant("text-written-raw-for-bytes", FL, "    if isinstance(root, (bytes, str)):\n        write(dataEscaper(root))", "    if isinstance(root, bytes):\n        write(root)\n    elif isinstance(root, str):\n        write(dataEscaper(root))"),
     Mutant("cdata-not-escaped", FL, "        write(escapedCDATA(root.data))", "        write(attributeEscapingDoneOutside(root.data))"),
     Mutant("cdata-split-wrong", FL, "    return data.replace(b\"]]>\", b\"]]]]><![CDATA[>\")", "    return data.replace(b\"]]>\", b\"]]><![CDATA[>\")"),
-    Mutant("comment-terminator-kept", FL, "    data = data.replace(b\"-->\", b\"--&gt;\")\n", ""),
+    Mutant("comment-terminator-kept", FL, "    data = data.replace(b\"-->\", b\"--&gt;\").replace(b\"--!>\", b\"--!&gt;\")\n", "    data = data.replace(b\"--!>\", b\"--!&gt;\")\n"),
+    Mutant("revert-F28-html5-comment-ends", FL, "    data = data.replace(b\"-->\", b\"--&gt;\").replace(b\"--!>\", b\"--!&gt;\")\n    if data.startswith((b\">\", b\"->\")):\n        data = data.replace(b\">\", b\"&gt;\", 1)\n",
+           "    data = data.replace(b\"-->\", b\"--&gt;\")\n", expect_rule="escaper/comment-html5"),
+    Mutant("comment-bang-terminator-kept", FL, ".replace(b\"--!>\", b\"--!&gt;\")\n", "\n", expect_rule="escaper/comment-html5"),
+    Mutant("comment-leading-dash-gt-kept", FL, "    if data.startswith((b\">\", b\"->\")):\n", "    if data.startswith(b\">\"):\n", expect_rule="escaper/comment-html5"),
     Mutant("comment-trailing-dash-kept", FL, "    if data and data[-1:] == b\"-\":\n        data += b\" \"\n", ""),
     Mutant("attribute-flattened-with-plain-writer", FL, "                v, attributeEscapingDoneOutside, write=writeWithAttributeEscaping(write)\n", "                v, escapeForContent\n"),
     Mutant("children-inherit-attribute-escaper", FL, "            yield keepGoing(root.children, escapeForContent)", "            yield keepGoing(root.children)"),
@@ -805,6 +809,8 @@ SILENT = [
     Silent("content-separate-statements", FL, "    data = data.replace(b\"&\", b\"&amp;\").replace(b\"<\", b\"&lt;\").replace(b\">\", b\"&gt;\")",
            "    data = data.replace(b\"&\", b\"&amp;\")\n    data = data.replace(b\">\", b\"&gt;\")\n    data = data.replace(b\"<\", b\"&lt;\")"),
     Silent("attribute-escapes-apostrophe-too", FL, "        write(escapeForContent(data).replace(b'\"', b\"&quot;\"))", "        write(escapeForContent(data).replace(b'\"', b\"&quot;\").replace(b\"\\t\", b\"&#9;\"))"),
+    Silent("comment-leading-gt-by-slices", FL, "    if data.startswith((b\">\", b\"->\")):\n        data = data.replace(b\">\", b\"&gt;\", 1)\n",
+           "    if data[:1] == b\">\":\n        data = b\"&gt;\" + data[1:]\n    elif data[:2] == b\"->\":\n        data = b\"-&gt;\" + data[2:]\n"),
     Silent("comment-endswith", FL, "    if data and data[-1:] == b\"-\":\n        data += b\" \"\n", "    if data.endswith(b\"-\"):\n        data = data + b\" \"\n"),
     Silent("keyword-escaper-for-children", FL, "            yield keepGoing(root.children, escapeForContent)", "            yield keepGoing(root.children, dataEscaper=escapeForContent)"),
 ]
